@@ -26,7 +26,7 @@ ASSUMPTIONS = [
     "a query that raises (C07's subject for the scipy backend) must still leave the state unchanged",
     "same question twice: values within 0.02 sigma / 2 % (matrices: 2 % of sqrt(C_ii C_jj)); profiles and contours compared point-wise at 1e-2",
     "scipy heuristic-grid contours (seconds each) inside generated histories only in the thorough tier; the scipy-only algorithm='beacon' contour (20-60 s each) has "
-    "its own sub-check 'beacon' with one generated history per quick run (seeded change C08-g was caught in the thorough tier only before)",
+    "its own sub-check 'beacon' with three generated histories per quick run (seeded change C08-g was caught in the thorough tier only before)",
 ]
 
 QUERIES = ["cov", "cor", "hessian", "hessian_inv", "asym", "profile_sigma", "profile_cl", "profile_lowhigh", "profile_mix", "contour", "contour_beacon", "band", "report", "report_asym",
@@ -312,5 +312,5 @@ KNOWN = {
 
 SUBS = [
     Sub("queries", lambda tier: strat(tier), run, quick=640, thorough=8000, about="post-fit query histories with state invariant against the post-fit snapshot"),
-    Sub("beacon", lambda tier: strat_beacon(tier), run, quick=1, thorough=24, about="scipy algorithm='beacon' contour first, then read-backs / excursions, same state invariant"),
+    Sub("beacon", lambda tier: strat_beacon(tier), run, quick=3, thorough=24, about="scipy algorithm='beacon' contour first, then read-backs / excursions, same state invariant"),
 ]
